@@ -136,6 +136,16 @@ def model_projects(chk, rng):
         out.append(("program", G.render_project(G.gen_project(rng, collision_knobs(rng))), {}))
     files, meta = P.gen(rng, nfiles=2, clash=True, extra=True)
     out.append(("c12proj-extra", files, meta))
+    # identifiers that used to be assigned while a set of objects was sorted
+    out.append(("renamed-parent", dict(WIT_TYPES), {"clash": True, "options": {}}))
+    out.append(("inherited-generic", dict(WIT_GENERIC), {"clash": True, "options": {"graph": "true"}}))
+    for i in range(2 if chk.tier == "quick" else 8):
+        files, meta = P.gen_shapes(rng)
+        out.append(("shapes", files, meta))
+    for i in range(1 if chk.tier == "quick" else 4):
+        files, meta = P.gen(rng, clash=True, multiuse=True, children=True)
+        meta = dict(meta, options={"graph": "true", "proc_internals": "true"})
+        out.append(("c12proj-graphs", files, meta))
     return out
 
 
@@ -149,6 +159,7 @@ def model_correspondence(chk, rng):
         opts = {"search": rng.choice(["true", "false"]), "incl_src": rng.choice(["true", "false"])}
         if meta.get("extra"):
             opts.update({"extra_filetypes": "inc !", "incl_src": "true"})
+        opts.update(meta.get("options") or {})
         jobs.append((kind, files, meta, order0, opts, perms_for(rng, len(order0), chk.tier)))
     with ProcessPoolExecutor(max_workers=8, mp_context=multiprocessing.get_context("fork")) as ex:
         futs = [ex.submit(R.trace_project, files, order0, perms, opts)
@@ -164,6 +175,16 @@ def model_correspondence(chk, rng):
             chk.violation("failing-input", {"what": "FORD fails under one enumeration order and not under another",
                                             "errors": sorted(map(str, errs)), "files": files}, True)
             continue
+        uncovered = sorted({u for r in runs for u in r.get("uncovered", [])})
+        if uncovered:
+            chk.violation("failing-input",
+                          {"what": "an entity is asked for its identifier for the FIRST time inside a loop whose "
+                                   "order comes from a set of objects hashed by id() (toposort of modules / of a "
+                                   "scope's types, graph construction): equally named entities would be numbered "
+                                   "in set order; the model assumes such loops only repeat requests",
+                           "first_requests": [{"phase": u[0], "dir": u[1], "name": u[2], "kind": u[3], "file": u[4]}
+                                              for u in uncovered[:12]],
+                           "options": opts, "files": files}, True)
         term, problems = build_case(order0, runs)
         if term is None:
             continue
@@ -448,6 +469,14 @@ def e2e_plan(chk, rng):
                 ("parallel", s0, {"parallel": "0"}, None), ("parallel", s0, {"parallel": "2"}, None),
                 ("location", s0 + 3, {}, None)]
         plan.append((f"g{i}", files, meta, opts, runs))
+    # identifiers formerly assigned in set order: types through a renamed import, inherited generic bindings,
+    # internal procedures (graph: true, proc_internals: true); object ids vary from run to run, not with the seed
+    for i in range(2 if quick else 6):
+        files, meta = P.gen_shapes(rng)
+        opts = dict(meta["options"])
+        s0 = rng.randrange(1000)
+        runs = [("seed", s0, {}, None)] * (4 if quick else 6) + [("seed", s0 + 1, {}, None), ("location", s0, {}, None)]
+        plan.append((f"s{i}", files, meta, opts, runs))
     # graphs that fall back to the HTML table (graph_maxnodes), equally labelled neighbours
     for i in range(1 if quick else 4):
         files, meta = P.gen_table(rng)
@@ -549,6 +578,15 @@ WIT_KIDS = {"src/a.f90": "module ma\n  type :: base\n    integer :: i\n  end typ
                          + "end module ma\n"}
 
 
+WIT_TYPES = {"src/a.f90": "module a\n  type :: t\n    integer :: i\n  end type t\nend module a\n",
+             "src/b.f90": "module b\n  use a, only: at => t\n  type :: t\n    integer :: j\n  end type t\n"
+                          "  type, extends(at) :: child\n    integer :: k\n  end type child\nend module b\n"}
+WIT_GENERIC = {"src/m.f90": "module m\n  type :: base\n  contains\n    procedure :: show_a\n    procedure :: show_b\n"
+                            "    generic :: show => show_a, show_b\n  end type base\n"
+                            + "".join(f"  type, extends(base) :: c{k}\n  end type c{k}\n" for k in (1, 2, 3))
+                            + "contains\n  subroutine show_a(self)\n    class(base) :: self\n  end subroutine show_a\n"
+                              "  subroutine show_b(self, n)\n    class(base) :: self\n    integer :: n\n"
+                              "  end subroutine show_b\nend module m\n"}
 WIT_TABLE = {"src/base.f90": "module base\ncontains\n  subroutine helper()\n  end subroutine helper\nend module base\n",
              **{f"src/m{k}.f90": f"module m{k}\n  use base\ncontains\n  subroutine init()\n    call helper()\n"
                                  f"  end subroutine init\nend module m{k}\n" for k in range(1, 6)}}
@@ -581,6 +619,8 @@ def findings(chk, rng):
         ("file-order-search-db", WIT_FOUR, {"search": "true"}, list(range(1, 7)), "80d6c91"),
         ("file-order-modules-json", WIT_FOUR, {"externalize": "true"}, list(range(1, 7)), "80d6c91"),
         ("inheritedby-children-order", WIT_KIDS, {"graph": "true"}, list(range(1, 6)), "c3c7c8e"),
+        ("type-toposort-id-order", WIT_TYPES, {}, [3] * 8, "the type-toposort repair"),
+        ("graph-all-id-order", WIT_GENERIC, {"graph": "true"}, [3] * 8, "the graph_all repair"),
         ("graph-table-rows (never a defect of /repo: seeded change)", WIT_TABLE,
          {"graph": "true", "graph_maxnodes": "3"}, list(range(1, 6)), None),
     ]
